@@ -466,7 +466,11 @@ fn normalize_space(
         &model::Value::Node(vec![node])
     };
     let r = String::try_from(arg)?;
-    let w = r.split_whitespace().collect::<Vec<&str>>();
+    // XPath white space is #x20, #x9, #xD and #xA only.
+    let w = r
+        .split([' ', '\t', '\r', '\n'])
+        .filter(|v| !v.is_empty())
+        .collect::<Vec<&str>>();
     Ok(model::Value::Text(w.join(" ")))
 }
 
